@@ -44,9 +44,10 @@ def Spec.tupVal : Spec → List Int | .tup cs => cs | _ => []
 def checkLength (shape : List Int) (l : List Spec) : Except String Unit :=
   if shape.length ≠ l.length then .error "value_error" else .ok ()
 
-/-- `assert_chunks_match_shape`: `all(sum(c) == s for s, c in zip(shape, chunks))` -/
+/-- `assert_chunks_match_shape`: no negative chunk size, and `all(sum(c) == s for s, c in zip(shape, chunks))` -/
 def assertMatch (shape : List Int) (v : Validated) : Except String Validated :=
-  if (shape.zip v).all (fun (s, c) => decide (c.sum = s)) then .ok v else .error "value_error"
+  if v.any (fun c => c.any chunkIsNegative) then .error "value_error"          -- negative chunk sizes (fix 3dfb10ad)
+  else if (shape.zip v).all (fun (s, c) => decide (c.sum = s)) then .ok v else .error "value_error"
 
 /-- body of the `fill_in_chunk_sizes` loop for one dimension -/
 def fillDim (s : Int) : Spec → Except String (List Int)
